@@ -447,3 +447,15 @@ def double_noop_family():
         for f in range(n):
             yield idx, ('pda', n, k, g, tuple(sorted(core + list(extra))), 0, 1 << f)
             idx += 1
+
+
+def stackfree_family(n=3, k=1, t=4):
+    """Thin family (wave 6): every epsilon-NFA with n states, k letters and exactly t transitions (q0 = s0, one accepting
+    state) written as a PDA that never touches its stack: input moves and epsilon moves between the same states
+    ("shortcuts"), cycles through the accepting state - without any stack effects in the way."""
+    from mc import spaces
+    X = 1
+    idx = 0
+    for _, (_, n_, k_, tr, q0, fb) in spaces.nfas(n, k, t, q0s=[0], fbits=[1 << i for i in range(n)], tmin=t):
+        yield idx, ('pda', n_, k_, 1, tuple((p, x, X, q, X) for (p, x, q) in tr), q0, fb)
+        idx += 1
